@@ -306,6 +306,73 @@ func run(v *vec, work string, idx int, o *out) {
 	}
 }
 
+// msizeSweep: a listing through client and server with a small msize (4096) and a byte count far beyond
+// it, for entry sizes 25..88 bytes: the server shortens every page to what a reply frame can carry; a page
+// that is a few bytes too long makes the client drop the connection and the listing is lost (Readdir.tla:
+// Complete, with the page size chosen by the environment).
+func msizeSweep(o *out, lfrom, lto int) {
+	for l := lfrom; l <= lto; l++ {
+		n := 200
+		nm := make([]string, n)
+		var opts []staticfs.Option
+		for i := range nm {
+			nm[i] = fmt.Sprintf("e%04d", i) + strings.Repeat("y", l-5)
+			opts = append(opts, staticfs.WithFile(nm[i], "x"))
+		}
+		st, err := staticfs.New(opts...)
+		if err != nil {
+			o.Findings = append(o.Findings, "staticfs: "+err.Error())
+			return
+		}
+		a, b := peer.NewDuplexPair()
+		srv := p9.NewServer(st)
+		go srv.Handle(b, b)
+		cl, err := p9.NewClient(a, p9.WithMessageSize(4096))
+		if err != nil {
+			o.Findings = append(o.Findings, "msize sweep: NewClient: "+err.Error())
+			return
+		}
+		root, err := cl.Attach("")
+		if err == nil {
+			_, _, err = root.Open(p9.ReadOnly)
+		}
+		if err != nil {
+			o.Findings = append(o.Findings, "msize sweep: setup: "+err.Error())
+			cl.Close()
+			return
+		}
+		o.Listings++
+		desc := fmt.Sprintf("staticfs via server with msize 4096, %d entries of %d-byte names (%d bytes each), count 2^20", n, l, 24+l)
+		got := map[string]int{}
+		off := uint64(0)
+		for page := 0; page < 4*n; page++ {
+			ents, err := root.Readdir(off, 1<<20)
+			if err != nil {
+				o.Findings = append(o.Findings, fmt.Sprintf("%s: Readdir(%d): %v after %d entries (a page the reply frame cannot carry?)", desc, off, err, len(got)))
+				break
+			}
+			if len(ents) == 0 {
+				break
+			}
+			for _, d := range ents {
+				got[d.Name]++
+				off = d.Offset
+			}
+			o.Entries += len(ents)
+		}
+		for _, w := range nm {
+			if got[w] != 1 {
+				o.Findings = append(o.Findings, fmt.Sprintf("%s: entry %q listed %d times", desc, w, got[w]))
+				break
+			}
+		}
+		cl.Close()
+		if len(o.Findings) > 5 {
+			return
+		}
+	}
+}
+
 func main() {
 	in := flag.String("in", "", "")
 	outp := flag.String("out", "", "")
@@ -319,6 +386,10 @@ func main() {
 		os.Exit(2)
 	}
 	o := &out{}
+	// the msize sweep is spread over the shards: names of 5..68 bytes
+	for l := 5 + *shard; l <= 68; l += *nshard {
+		msizeSweep(o, l, l)
+	}
 	w := filepath.Join(*work, fmt.Sprintf("s%d", *shard))
 	os.MkdirAll(w, 0o755)
 	defer os.RemoveAll(w)
